@@ -532,6 +532,8 @@ def run(chk, facts, tier):
     response_hom(chk, facts)
     residual_hom(chk, facts)
     sibling_delegates(chk, facts)
+    from rules import shared_getters
+    shared_getters.check(chk, facts, "C19.GETTER", ["cedar_policy::ffi::"], 8)
     cli_table(chk, facts)
     validate_flow(chk, facts)
     wrappers_and_format(chk, facts)
